@@ -79,15 +79,15 @@ func (prop) ID() string { return "C17" }
 
 func (prop) Plan(tier string) []core.Phase {
 	if tier == "thorough" {
-		return []core.Phase{{Name: "race", Race: true, Runs: 3000000}, {Name: "plain", Runs: 20000000}}
+		return []core.Phase{{Name: "cold", Race: true, Fresh: true, Runs: 300000}, {Name: "race", Race: true, Runs: 3000000}, {Name: "plain", Runs: 20000000}}
 	}
-	return []core.Phase{{Name: "race", Race: true, Runs: 60000}, {Name: "plain", Runs: 400000}}
+	return []core.Phase{{Name: "cold", Race: true, Fresh: true, Runs: 4000}, {Name: "race", Race: true, Runs: 60000}, {Name: "plain", Runs: 400000}}
 }
 
 func (prop) Describe() core.Description {
 	return core.Description{
 		Level:        "exploration",
-		Rule:         "A scenario is a pool of shared arguments built from models (geometries of all types and layouts, coordinates, flat arrays with spare capacity incl. >50-point and duplicate-heavy point sets, WKB/EWKB bytes, hex, WKT, GeoJSON and IGC text with spare capacity), a list of calls drawn from a table of every non-mutating exported entry point, and per worker goroutine (2-16) an ordered program of those calls with Gosched points, plus GOMAXPROCS. Solo phase: each distinct call runs alone twice with to-capacity snapshots before/after. Concurrent phase: all workers released by one barrier, unsynchronised until the join. Phase 'race' runs in the -race binary (a report aborts the worker with exit 66 and is attributed to the scenario persisted before the run); phase 'plain' runs more workers and scenarios without the detector. A run is non-trivial when at least two workers executed calls that share at least one pool argument.",
+		Rule:         "A scenario is a pool of shared arguments built from models (geometries of all types and layouts, coordinates, flat arrays with spare capacity incl. >50-point and duplicate-heavy point sets, WKB/EWKB bytes, hex, WKT, GeoJSON and IGC text with spare capacity), a list of calls drawn from a table of every non-mutating exported entry point, and per worker goroutine (2-16) an ordered program of those calls with Gosched points, plus GOMAXPROCS. Solo phase: each distinct call runs alone twice with to-capacity snapshots before/after. Concurrent phase: all workers released by one barrier, unsynchronised until the join. Phase 'cold' gives every scenario a -race process of its own and runs the concurrent part first, so that the workers' calls are the process's first use of the library (lazily initialised state is then initialised concurrently). Phase 'race' runs in the -race binary (a report aborts the worker with exit 66 and is attributed to the scenario persisted before the run); phase 'plain' runs more workers and scenarios without the detector. A run is non-trivial when at least two workers executed calls that share at least one pool argument.",
 		StateMeasure: "distinct (set of function pairs that overlapped on a shared argument, GOMAXPROCS, worker count) tuples",
 		Assumptions: []string{
 			"the Go race detector reports from happens-before (vector clocks), so a report does not depend on the observed interleaving; its bounded shadow memory is mitigated by short programs (<= 6 calls per worker) and many runs",
@@ -617,6 +617,42 @@ func (prop) Execute(scAny any, phase string, log *core.Log) core.Result {
 	if len(s.Workers) >= 8 {
 		res.Count("probe:workers>=8", 1)
 	}
+	// Phase "cold": the scenario has a process of its own and the concurrent
+	// part comes first, so that the workers' calls are the process's first use
+	// of the library (lazily initialised state is initialised concurrently).
+	cold := phase == "cold"
+	var results [][]string
+	var beforeConc []snap
+	concurrent := func() {
+		beforeConc = snapshot(items)
+		results = make([][]string, len(s.Workers))
+		var wg sync.WaitGroup
+		start := make(chan struct{})
+		for w := range s.Workers {
+			results[w] = make([]string, len(s.Workers[w]))
+			wg.Add(1)
+			go func(w int) {
+				defer wg.Done()
+				<-start
+				for k, st := range s.Workers[w] {
+					for y := 0; y < st.Yield; y++ {
+						runtime.Gosched()
+					}
+					results[w][k] = runCall(&s.Calls[st.Call], items)
+				}
+			}(w)
+		}
+		close(start)
+		wg.Wait()
+	}
+	if cold {
+		res.Count("probe:cold-start", 1)
+		concurrent()
+		if i, d := diffSnap(beforeConc, snapshot(items)); i >= 0 {
+			res.Fail("argument-mutated", "argument-mutated:concurrent", "after the concurrent phase (first use of the library in this process) pool item %d (kind %s) differs: %s", i, s.Pool[i].K, d)
+			return res
+		}
+	}
 	// --- solo phase
 	solo := make([]string, len(s.Calls))
 	for ci := range s.Calls {
@@ -715,26 +751,10 @@ func (prop) Execute(scAny any, phase string, log *core.Log) core.Result {
 		}
 	}
 	// --- concurrent phase
-	before := snapshot(items)
-	results := make([][]string, len(s.Workers))
-	var wg sync.WaitGroup
-	start := make(chan struct{})
-	for w := range s.Workers {
-		results[w] = make([]string, len(s.Workers[w]))
-		wg.Add(1)
-		go func(w int) {
-			defer wg.Done()
-			<-start
-			for k, st := range s.Workers[w] {
-				for y := 0; y < st.Yield; y++ {
-					runtime.Gosched()
-				}
-				results[w][k] = runCall(&s.Calls[st.Call], items)
-			}
-		}(w)
+	if !cold {
+		concurrent()
 	}
-	close(start)
-	wg.Wait()
+	before := beforeConc
 	for w := range s.Workers {
 		for k, st := range s.Workers[w] {
 			res.Steps++
@@ -746,7 +766,7 @@ func (prop) Execute(scAny any, phase string, log *core.Log) core.Result {
 			log.Addf("worker %d step %d call %d ok", w, k, st.Call)
 		}
 	}
-	if i, d := diffSnap(before, snapshot(items)); i >= 0 {
+	if i, d := diffSnap(before, snapshot(items)); i >= 0 && !cold {
 		res.Fail("argument-mutated", "argument-mutated:concurrent", "after the concurrent phase pool item %d (kind %s) differs: %s", i, s.Pool[i].K, d)
 		return res
 	}
@@ -1061,7 +1081,7 @@ func (g *gen) argFor(kind string) int {
 
 func (prop) Generate(r *prng.Rand, phase string) any {
 	s := &Scenario{MaxProcs: []int{1, 2, 4, 16}[r.Intn(4)]}
-	if phase == "race" && s.MaxProcs == 1 {
+	if (phase == "race" || phase == "cold") && s.MaxProcs == 1 {
 		// With one P the workers run one after the other and incidental
 		// happens-before edges (sync.Pool inside encoding/json and fmt under
 		// -race) can order them; races then go unreported and unreproduced.
